@@ -68,8 +68,19 @@ package gtab
 //@   requires forall i int :: 0 <= i && i < len(l.Adjust) ==> forall j int :: 0 <= j && j < len(l.Adjust[i]) ==> l.Adjust[i][j] != nil
 //@   ensures next == -1 || (a < next && next <= b)
 //@   return_assert next >= 0 ==> a < p && p < b && next == ite(adj.Second == nil, p, p + 1)
+// GPOS type 2: the partner is the first glyph after a that the lookup flags keep (the very next glyph without a filter); the first value record adjusts the first glyph, the second the partner; nothing else changes; a failed match changes nothing
+//@   return_assert next >= 0 ==> keptG(keep, seq[p].GID) && forall q int :: a < q && q < p ==> !keptG(keep, seq[q].GID)
+//@   return_assert next >= 0 ==> has(l.Cov, old(ctx.seq[a].GID)) && adj == l.Adjust[l.Class1[old(ctx.seq[a].GID)]][l.Class2[old(ctx.seq[p].GID)]]
+//@   return_assert next >= 0 && adj.First != nil ==> ctx.seq[a].XOffset == int16(old(ctx.seq[a].XOffset) + adj.First.XPlacement) && ctx.seq[a].YOffset == int16(old(ctx.seq[a].YOffset) + adj.First.YPlacement) && ctx.seq[a].Advance == int16(old(ctx.seq[a].Advance) + adj.First.XAdvance)
+//@   return_assert next >= 0 && adj.First == nil ==> ctx.seq[a].XOffset == old(ctx.seq[a].XOffset) && ctx.seq[a].YOffset == old(ctx.seq[a].YOffset) && ctx.seq[a].Advance == old(ctx.seq[a].Advance)
+//@   return_assert next >= 0 && adj.Second != nil ==> ctx.seq[p].XOffset == int16(old(ctx.seq[p].XOffset) + adj.Second.XPlacement) && ctx.seq[p].YOffset == int16(old(ctx.seq[p].YOffset) + adj.Second.YPlacement) && ctx.seq[p].Advance == int16(old(ctx.seq[p].Advance) + adj.Second.XAdvance)
+//@   return_assert next >= 0 && adj.Second == nil ==> ctx.seq[p].XOffset == old(ctx.seq[p].XOffset) && ctx.seq[p].YOffset == old(ctx.seq[p].YOffset) && ctx.seq[p].Advance == old(ctx.seq[p].Advance)
+//@   return_assert next >= 0 ==> forall q int :: 0 <= q && q < len(ctx.seq) && q != a && q != p ==> ctx.seq[q] == old(ctx.seq[q])
+//@   ensures next < 0 ==> forall q int :: 0 <= q && q < len(ctx.seq) ==> ctx.seq[q] == old(ctx.seq[q])
+//@   ensures forall q int :: 0 <= q && q < len(ctx.seq) ==> ctx.seq[q].GID == old(ctx.seq[q].GID) && ctx.seq[q].Text == old(ctx.seq[q].Text)
 //@   modifies ctx.seq[*]
 //@   loop 0
+//@     invariant keep == ctx.keep && forall q int :: a < q && q < p ==> !keptG(keep, seq[q].GID)
 //@     invariant a < p && p <= b && b <= len(seq) && ref(seq) == ref(ctx.seq) && off(seq) == off(ctx.seq) && len(seq) == len(ctx.seq)
 //@     decreases b - p
 
@@ -710,8 +721,19 @@ package gtab
 //@   ensures forall i int :: 0 <= i && i < len(ctx.seq) ==> ctx.seq[i].GID == old(ctx.seq[i].GID)
 //@   return_assert next >= 0 ==> a < p && p < b && has(l, glyph.Pair{g1.GID, g2.GID}) && next == ite(adj.Second == nil, p, p + 1)
 //@   may_panic
+// GPOS type 2: the partner is the first glyph after a that the lookup flags keep (the very next glyph without a filter); the first value record adjusts the first glyph, the second the partner; nothing else changes; a failed match changes nothing
+//@   return_assert next >= 0 ==> keptG(keep, seq[p].GID) && forall q int :: a < q && q < p ==> !keptG(keep, seq[q].GID)
+//@   return_assert next >= 0 ==> adj == l[glyph.Pair{old(ctx.seq[a].GID), old(ctx.seq[p].GID)}]
+//@   return_assert next >= 0 && adj.First != nil ==> ctx.seq[a].XOffset == int16(old(ctx.seq[a].XOffset) + adj.First.XPlacement) && ctx.seq[a].YOffset == int16(old(ctx.seq[a].YOffset) + adj.First.YPlacement) && ctx.seq[a].Advance == int16(old(ctx.seq[a].Advance) + adj.First.XAdvance)
+//@   return_assert next >= 0 && adj.First == nil ==> ctx.seq[a].XOffset == old(ctx.seq[a].XOffset) && ctx.seq[a].YOffset == old(ctx.seq[a].YOffset) && ctx.seq[a].Advance == old(ctx.seq[a].Advance)
+//@   return_assert next >= 0 && adj.Second != nil ==> ctx.seq[p].XOffset == int16(old(ctx.seq[p].XOffset) + adj.Second.XPlacement) && ctx.seq[p].YOffset == int16(old(ctx.seq[p].YOffset) + adj.Second.YPlacement) && ctx.seq[p].Advance == int16(old(ctx.seq[p].Advance) + adj.Second.XAdvance)
+//@   return_assert next >= 0 && adj.Second == nil ==> ctx.seq[p].XOffset == old(ctx.seq[p].XOffset) && ctx.seq[p].YOffset == old(ctx.seq[p].YOffset) && ctx.seq[p].Advance == old(ctx.seq[p].Advance)
+//@   return_assert next >= 0 ==> forall q int :: 0 <= q && q < len(ctx.seq) && q != a && q != p ==> ctx.seq[q] == old(ctx.seq[q])
+//@   ensures next < 0 ==> forall q int :: 0 <= q && q < len(ctx.seq) ==> ctx.seq[q] == old(ctx.seq[q])
+//@   ensures forall q int :: 0 <= q && q < len(ctx.seq) ==> ctx.seq[q].GID == old(ctx.seq[q].GID) && ctx.seq[q].Text == old(ctx.seq[q].Text)
 //@   modifies ctx.seq[*]
 //@   loop 0
+//@     invariant keep == ctx.keep && forall q int :: a < q && q < p ==> !keptG(keep, seq[q].GID)
 //@     invariant a < p && p <= b && b <= len(seq) && ref(seq) == ref(ctx.seq) && off(seq) == off(ctx.seq) && len(seq) == len(ctx.seq)
 //@     decreases b - p
 
